@@ -29,7 +29,7 @@ Definition ex_m (t : term) (txt : string) (p : nat) : option nat :=
   if tre t then
     if String.eqb (tvalue t) "[a-z]+" then span is_lower txt p
     else if String.eqb (tvalue t) " +" then span is_space txt p else None
-  else str_match_at t txt p.
+  else str_match_at lower t txt p.
 
 Definition NAME := mkTerm "NAME" 0 true "[a-z]+" [] 4294967295.
 Definition IF := mkTerm "IF" 0 false "if" [] 2.
@@ -41,8 +41,8 @@ Definition ex_cok (l : list term) : bool := true.
 
 Definition ex_accepts (s : nat) : list string :=
   match s with 0 => ["IF"] | 1 => ["NAME"] | _ => [] end.
-Definition ex_step (s : nat) (a : string) : option nat :=
-  if mem_string a (ex_accepts s) then Some (S s) else None.
+Definition ex_step (s : nat) (t : tok) : option nat :=
+  if mem_string (ktype t) (ex_accepts s) then Some (S s) else None.
 
 Definition ex_st := sort_terms ex_terms.
 
@@ -55,7 +55,7 @@ Ltac pcases p := destruct p as [|[|[|[|[|p]]]]].
 Lemma ex_uniq : uniq_names ex_terms.
 Proof. unfold uniq_names. cbn. repeat constructor; cbn; intuition discriminate. Qed.
 
-Lemma ex_str : str_oracle ex_m ex_text ex_st.
+Lemma ex_str : str_oracle lower ex_m ex_text ex_st.
 Proof. intros K HK Hs. in_st HK; try discriminate. split; reflexivity. Qed.
 
 Lemma ex_bound : bounded_oracle ex_m ex_text ex_st.
@@ -105,9 +105,9 @@ Proof.
   cbn [ex_terms In] in HY. destruct HY as [H|[H|[H|[]]]]; subst; try discriminate. now apply Hne.
 Qed.
 
-Lemma ex_acc : forall s a s', ex_step s a = Some s' -> In a (ex_accepts s).
+Lemma ex_acc : forall s t s', ex_step s t = Some s' -> In (ktype t) (ex_accepts s).
 Proof.
-  intros s a s'. unfold ex_step. destruct (mem_string a (ex_accepts s)) eqn:E; [|discriminate].
+  intros s a s'. unfold ex_step. destruct (mem_string (ktype a) (ex_accepts s)) eqn:E; [|discriminate].
   intros _. now apply mem_string_In.
 Qed.
 
@@ -120,16 +120,16 @@ Proof. reflexivity. Qed.
 
 Definition ex_tokens : list tok := [mkTok "IF" 0 2; mkTok "NAME" 3 1].
 
-Lemma ex_basic : lex_from ex_m ex_text ex_root 0 = (ex_tokens, AtEOF).
+Lemma ex_basic : lex_from lower ex_m ex_text ex_root 0 = (ex_tokens, AtEOF).
 Proof. vm_compute. reflexivity. Qed.
 
-Lemma ex_parse : run nat ex_step 0 (map ktype ex_tokens) = Some 2.
+Lemma ex_parse : run nat ex_step 0 ex_tokens = Some 2.
 Proof. reflexivity. Qed.
 
 Lemma ex_contextual_by_theorem :
-  ctx_lex ex_m ex_cok ex_text nat ex_accepts ex_step 3 ex_terms ex_ign [] ex_root 0 0 = (ex_tokens, CEOF).
+  ctx_lex lower ex_m ex_cok ex_text nat ex_accepts ex_step 3 ex_terms ex_ign [] ex_root 0 0 = (ex_tokens, CEOF).
 Proof.
-  apply (contextual_refines_basic ex_m ex_cok ex_text (fun _ => eq_refl) nat ex_accepts ex_step
+  apply (contextual_refines_basic lower ex_m ex_cok ex_text (fun _ => eq_refl) nat ex_accepts ex_step
            ex_terms ex_ign [] ex_uniq ex_str ex_bound ex_pos ex_sem ex_disj ex_ign_agrees ex_iso ex_acc
            ex_root ex_tokens 2 0 ex_root_eq ex_basic ex_parse).
   cbn. lia.
@@ -147,7 +147,7 @@ Lemma ex_removal mresA mresB fuel p rsA eA rsB eB :
   List.concat mresA = ex_st -> List.concat mresB = scanner_terms ex_m ex_st ->
   lex_raw ex_m ex_text fuel mresA p = (rsA, eA) ->
   lex_raw ex_m ex_text fuel mresB p = (rsB, eB) ->
-  emit ex_m ex_text ex_st ex_ign rsB = emit ex_m ex_text ex_st ex_ign rsA /\ eB = eA.
+  emit lower ex_m ex_text ex_st ex_ign rsB = emit lower ex_m ex_text ex_st ex_ign rsA /\ eB = eA.
 Proof.
   apply removal_lex.
   - eapply uniq_names_perm; [apply sort_perm|apply ex_uniq].
@@ -171,8 +171,8 @@ Definition f14_m := m_tab "if" [[("A", 2); ("B", 2); ("C", 2)]; []; []] [("C", "
 
 Lemma removal_without_isolation_refuted :
   let st := sort_terms f14_terms in
-  obs_at f14_m "if" st st [] 0 = Some ("A", 2, false) /\
-  obs_at f14_m "if" st (scanner_terms f14_m st) [] 0 = Some ("B", 2, false).
+  obs_at lower f14_m "if" st st [] 0 = Some ("A", 2, false) /\
+  obs_at lower f14_m "if" st (scanner_terms f14_m st) [] 0 = Some ("B", 2, false).
 Proof. vm_compute. split; reflexivity. Qed.
 
 (* F15: IF: "if"  IFP: "if("  NAME: /[a-z]+/ ... on "if(x)" with a first state that accepts IF and
@@ -185,15 +185,75 @@ Definition f15_m := m_tab f15_text
   [[("IF", 2); ("IFP", 3); ("NAME", 2)]; [("NAME", 1)]; [("LP", 1)]; [("NAME", 1)]; [("RP", 1)]; []] [("NAME", "if")].
 Definition f15_accepts (s : nat) : list string :=
   match s with 0 => ["IF"; "IFP"] | 1 => ["LP"] | 2 => ["NAME"] | 3 => ["RP"] | _ => [] end.
-Definition f15_step (s : nat) (a : string) : option nat :=
-  if mem_string a (f15_accepts s) then Some (S s) else None.
+Definition f15_step (s : nat) (t : tok) : option nat :=
+  if mem_string (ktype t) (f15_accepts s) then Some (S s) else None.
 
 Lemma contextual_without_isolation_refuted :
   exists root ts,
     make_lexer f15_m ex_cok f15_terms [] = Some root /\
-    lex_from f15_m f15_text root 0 = (ts, AtEOF) /\
-    run nat f15_step 0 (map ktype ts) = Some 4 /\
+    lex_from lower f15_m f15_text root 0 = (ts, AtEOF) /\
+    run nat f15_step 0 ts = Some 4 /\
     map ktype ts = ["IF"; "LP"; "NAME"; "RP"] /\
-    map ktype (fst (ctx_lex f15_m ex_cok f15_text nat f15_accepts f15_step 6 f15_terms [] [] root 0 0))
+    map ktype (fst (ctx_lex lower f15_m ex_cok f15_text nat f15_accepts f15_step 6 f15_terms [] [] root 0 0))
       = ["IFP"].
 Proof. eexists. eexists. split; [reflexivity|]. vm_compute. repeat split; reflexivity. Qed.
+
+(* ---------------------------------------------------------------- round 12: the model parse table *)
+From LV Require Import Cfg.Grammar LR.Driver Lex.ContextualLR Lex.ContextualLR_proofs Lex.Alt Lex.Alt_proofs.
+
+(* start: IF NAME  with IF = T 0, WS = T 1, NAME = T 2 (indices in ex_terms), $END = T 4;
+   lark's table: 0: {IF: shift 1, start: shift 3}  1: {NAME: shift 2}  2: {$END: reduce start -> IF NAME} *)
+Definition ex_rule : rule := mkRule 0 [T 0; T 2].
+Definition ex_rows : rows :=
+  [(0, [(T 0, Shift 1); (NT 0, Shift 3)]); (1, [(T 2, Shift 2)]); (2, [(T 4, Reduce ex_rule)])].
+Definition ex_end : tok := mkTok "$END" 4 0.
+Definition ex_tree : dtree tok := Node ex_rule [Leaf (mkTok "IF" 0 2); Leaf (mkTok "NAME" 3 1)].
+
+Lemma ex_rows_known : rows_known ex_terms ex_rows = true.
+Proof. reflexivity. Qed.
+
+Lemma ex_lr_parse :
+  parse tok (ContextualLR.ttype ex_terms) (ContextualLR.P ex_rows 0 3) 5 ex_tokens ex_end = Accepted ex_tree.
+Proof. vm_compute. reflexivity. Qed.
+
+Lemma ex_iso_lr (c : config tok) :
+  keywords_isolated ex_m ex_text ex_st
+    (sort_terms (sub_terms (config tok) (lr_accepts ex_terms ex_rows) ex_terms ex_ign [] c)).
+Proof.
+  intros K Y p HK HY HYs (R & HR & Hre & Hk) _ Hne _ _.
+  destruct (ex_kw R K Hk HR Hre) as [_ ->].
+  apply (proj1 (sort_in _ _)) in HY. unfold sub_terms in HY. apply filter_In in HY. destruct HY as [HY _].
+  cbn [ex_terms In] in HY. destruct HY as [H|[H|[H|[]]]]; subst; try discriminate. now apply Hne.
+Qed.
+
+(* the instantiated theorem applies: same tokens, same tree *)
+Lemma ex_contextual_lr_by_theorem :
+  ctx_lex lower ex_m ex_cok ex_text (config tok) (lr_accepts ex_terms ex_rows) (lr_step ex_terms ex_rows 0 3 5)
+          3 ex_terms ex_ign [] ex_root (init_config (ContextualLR.P ex_rows 0 3)) 0 = (ex_tokens, CEOF) /\
+  ctx_parse lower ex_m ex_cok ex_text ex_terms ex_ign [] ex_rows 0 3 5 3 ex_root ex_end = CxTree ex_tree.
+Proof.
+  apply (contextual_refines_basic_lr lower ex_m ex_cok ex_text ex_terms ex_ign [] ex_rows 0 3 5
+           ex_rows_known (fun _ => eq_refl) ex_uniq ex_str ex_bound ex_pos ex_sem ex_disj ex_ign_agrees
+           ex_iso_lr ex_root ex_tokens ex_tree ex_end ex_root_eq ex_basic ex_lr_parse).
+  cbn. lia.
+Qed.
+
+(* the first row accepts IF only: its sub-lexer has no NAME, the second no IF *)
+Lemma ex_lr_rows_differ :
+  row_accepts ex_terms ex_rows 0 = ["IF"] /\ row_accepts ex_terms ex_rows 1 = ["NAME"] /\
+  row_accepts ex_terms ex_rows 2 = ["$END"].
+Proof. vm_compute. repeat split; reflexivity. Qed.
+
+(* the Scanner object on the example: alternations answered by a backtracking engine built from
+   ex_m (one candidate per pattern) satisfy both assumptions *)
+Definition ex_cand (t : term) (txt : string) (p : nat) : list nat :=
+  match ex_m t txt p with Some n => [n] | None => [] end.
+
+Lemma ex_m_of : forall t txt p, m_of ex_cand t txt p = ex_m t txt p.
+Proof. intros t txt p. unfold m_of, ex_cand. now destruct (ex_m t txt p). Qed.
+
+Lemma ex_scanner_object :
+  sc_match (fun c txt p => named (alt_match_bt ex_cand c txt p)) (lx_mres ex_root) ex_text 0 = Some ("NAME", 2) /\
+  report_o ex_m (fun c v => option_map (fun x : term * nat => tname (fst x)) (alt_full_bt ex_cand c v)) ex_cok
+           ex_st NAME "if" = Some "IF".
+Proof. vm_compute. split; reflexivity. Qed.
